@@ -32,6 +32,8 @@ NATIVE_APPEND = {
     "bindings/C/src/lib.rs": "cbind",
 }
 
+API_ONLY = [False]  # set by confirm() from the check's environment
+
 SIZES = {"u8": 1, "bool": 1, "u16": 2, "u32": 4, "i32": 4, "u64": 8, "i64": 8, "usize": 8, "u128": 16}
 
 
@@ -119,6 +121,10 @@ def run_native(ov, template, values, outdir, tag, profiles=("dev", "release"), s
     env.update({"CARGO_NET_OFFLINE": "true", "CARGO_TERM_COLOR": "never", "RUST_BACKTRACE": "0"})
     for k, v in values.items():
         env["VR_" + k] = str(v)
+    if os.environ.get("VERIF_API_ONLY") == "1" or API_ONLY[0]:
+        # templates that call private functions directly are compiled out (see bin/check: fallback
+        # after a build error of the harness modules)
+        env["RUSTFLAGS"] = (env.get("RUSTFLAGS", "") + " --cfg verif_api_only").strip()
     res = {"status": "not-reproduced", "summary": "", "profiles": {}}
     for prof in profiles:
         log = os.path.join(outdir, f"native-{tag}-{prof}.log")
@@ -163,6 +169,7 @@ def run_native(ov, template, values, outdir, tag, profiles=("dev", "release"), s
 
 def confirm(h, r, ov, env, outdir):
     """obtain concrete values for failing harness h and replay them natively"""
+    API_ONLY[0] = env.get("VERIF_API_ONLY") == "1"
     spec = h.get("replay", "").split()
     if not spec:
         return {"status": "no-template", "summary": "no native replay template registered for this harness"}
